@@ -1454,3 +1454,143 @@ def rule_boundary(ctx, cfg, r):
         else:
             r.fail(fn, "resume-needs:" + f, "decoder field `%s` is needed after a block boundary but is neither in the boundary record nor "
                    "provably equal, at every boundary, to the constant from_block_boundary_state assigns" % f)
+
+
+
+# ---------------------------------------------------------------------------------------------- R09.7 / R06.4 counted byte collection
+def rule_counted_bytes(ctx, cfg, r, arm="ReadAdler32", limit=4, acc_field="z_adler32"):
+    """In `arm`, bytes are collected one count at a time: on every path the counter grows by exactly the number of input
+    bytes (or whole bytes of bit buffer) taken, the arm is left only once the counter test says `limit` were collected, and each
+    collected byte is shifted into the accumulator most-significant first."""
+    M = machine(ctx, cfg)
+    c = ctx.crate(cfg)
+    fn = M.fn.name
+    lv = c.adt("inflate::core::LocalVars")["path"]
+    n_collect = 0
+    for x in M.arm_rows(arm):
+        if x.kind not in ("none", "jump", "end"):
+            continue
+        taken = 0
+        unknown_take = None
+        for e in x.effects:
+            if e[0] == "call" and e[1].endswith("inflate::core::read_bits"):
+                amt = e[2][1]
+                # the closure ran iff an 'enter' of a closure follows; counted below
+            if e[0] == "enter" and "{closure" in e[1]:
+                taken += 1
+            if e[0] == "call" and e[1].endswith("InputWrapper::advance"):
+                a = e[2][1]
+                if is_const(a):
+                    taken += const_val(a)
+                else:
+                    unknown_take = tstr(a)
+            if e[0] == "call" and (e[1].endswith("read_u32_le") or e[1].endswith("read_u16_le")):
+                taken += 4 if e[1].endswith("read_u32_le") else 2
+        cnt_key = None
+        cnt_val = None
+        for k, v in x.store.items():
+            if isinstance(k, tuple) and k and k[0] == "fld" and k[2] == "counter" and k[3] == lv:
+                cnt_key, cnt_val = k, v
+        cnt0 = ("load", cnt_key, 0) if cnt_key else None
+        if unknown_take:
+            r.fail(fn, "%s/take" % arm, "arm %s consumes a data-dependent number of bytes (%s) in one step" % (arm, unknown_take))
+            continue
+        if taken:
+            n_collect += 1
+            parts = sum_parts(cnt_val) if cnt_val is not None else []
+            consts = sum(const_val(p) for p in parts if is_const(p))
+            loads = [p for p in parts if not is_const(p)]
+            okc = cnt_val is not None and consts == taken and len(loads) == 1 and loads[0][0] == "load" and \
+                paths.place_is_field(loads[0][1], "counter") and loads[0][2] == 0
+            if okc:
+                r.ok(fn, "%s/count" % arm, "counter += %d for %d byte(s) taken" % (taken, taken))
+            else:
+                r.fail(fn, "%s/count" % arm, "arm %s takes %d byte(s) but sets counter to %s instead of counter + %d: bytes collected by an "
+                       "earlier call would be discarded or recounted" % (arm, taken, tstr(cnt_val) if cnt_val is not None else "<unchanged>", taken))
+            # only below the limit
+            below = any(a[0] == "bin" and a[1] == "Lt" and is_const(a[3]) and const_val(a[3]) == limit and s.single() == 1 and
+                        a[2][0] == "load" and paths.place_is_field(a[2][1], "counter") for a, s in x.atoms)
+            if not below:
+                r.fail(fn, "%s/below-limit" % arm, "arm %s takes bytes without counter < %d having been established" % (arm, limit))
+            if acc_field:
+                st = store_to_field(x, acc_field, "DecompressorOxide")
+                good = False
+                if st:
+                    v = st[-1][2]
+                    # (acc << 8) | byte
+                    good = v[0] == "bin" and v[1] == "BitOr" and any(
+                        q[0] == "bin" and q[1] == "Shl" and paths.is_load_of(q[2], acc_field, "DecompressorOxide") and const_val(q[3]) == 8
+                        for q in (v[2], v[3]))
+                if good:
+                    r.ok(fn, "%s/shift-in" % arm, "%s = (%s << 8) | byte" % (acc_field, acc_field))
+                else:
+                    r.fail(fn, "%s/shift-in" % arm, "collected byte is not shifted into %s most-significant first: %s"
+                           % (acc_field, [tstr(e[2]) for e in st]))
+        elif x.kind == "jump" and x.target != arm:
+            atleast = any(a[0] == "bin" and a[1] == "Lt" and is_const(a[3]) and const_val(a[3]) == limit and s.single() == 0 and
+                          a[2][0] == "load" and paths.place_is_field(a[2][1], "counter") and a[2][2] == 0 for a, s in x.atoms)
+            if atleast:
+                r.ok(fn, "%s/leave" % arm, "left only under counter >= %d" % limit)
+            else:
+                r.fail(fn, "%s/leave" % arm, "arm %s is left without the test counter >= %d on the persisted counter: %s" % (arm, limit, x.describe(8)))
+    if n_collect < 2:
+        r.fail(fn, "%s/collect-rows" % arm, "%d collecting paths in %s (reference tree: 2 — from the bit buffer and from the input)" % (n_collect, arm))
+
+
+# ---------------------------------------------------------------------------------------------- bit-buffer discipline
+def _bit_reads(row):
+    """[(index term, num_bits load term | None)] for subterms `(bit_buf >> I) & 1` occurring on the row"""
+    out = []
+    seen = set()
+    terms = [a for a, s in row.atoms] + [v for v in row.store.values() if isinstance(v, tuple)]
+    for t in terms:
+        for st in paths.subterms(t):
+            if st[0] == "bin" and st[1] == "BitAnd" and is_const(st[3]) and const_val(st[3]) == 1 and st[2][0] == "bin" and st[2][1] == "Shr" and \
+                    st[2][2][0] == "load" and paths.place_is_field(st[2][2][1], "bit_buf"):
+                I = st[2][3]
+                if repr(I) not in seen:
+                    seen.add(repr(I))
+                    out.append((I, st[2][2]))
+    return out
+
+
+def rule_bit_reads(ctx, cfg, r):
+    """Every single-bit read `(bit_buf >> i) & 1` of the slow Huffman walk happens under i < num_bits (base case from the
+    function entry, inductive step over an arbitrary iteration of each loop)."""
+    c = ctx.crate(cfg)
+    f = c.fn("inflate::core::decode_huffman_code")
+    ctx.touched(f)
+    E = ctx.effects(cfg)
+    inl = ["inflate::core::read_byte", "inflate::core::end_of_input"]
+    ev = paths.Evaluator(c, effects=E, pure_calls=sm.PURE, inline=inl)
+    rows = ev.run(f)
+    heads = sorted({x.outcome[1] for x in rows if x.outcome[0] == "backedge"})
+    lvp = c.adt("inflate::core::LocalVars")["path"]
+    checked = 0
+
+    def nb_term(bitbuf_load):
+        pt = bitbuf_load[1]
+        return ("load", ("fld", pt[1], "num_bits", pt[3]), bitbuf_load[2])
+
+    def check(x, base):
+        nonlocal checked
+        for I, bb_load in _bit_reads(x):
+            if not base and I[0] == "unknown":
+                continue      # first pass of the inductive run: covered by the base case
+            nb = nb_term(bb_load)
+            d = x.facts.decide_cmp("Lt", I, nb)
+            checked += 1
+            if d == 1:
+                r.ok(f.name, "bit-read", "bit %s read under %s < num_bits" % (tstr(I)[:40], tstr(I)[:40]))
+            else:
+                r.fail(f.name, "bit-read", "bit index %s of the bit buffer is read without the fact index < num_bits: a bit that has not been "
+                       "loaded yet (reads as 0) can decide the Huffman walk (%s)" % (tstr(I), "base case" if base else "inductive step"))
+    for x in rows:
+        check(x, True)
+    for h in heads:
+        ev2 = paths.Evaluator(c, effects=E, pure_calls=sm.PURE, inline=inl, unroll=2, max_blocks=40, max_paths=4000)
+        for x in ev2.run(f, start_bb=h):
+            check(x, False)
+    if checked < 2:
+        r.fail(f.name, "bit-read-sites", "%d single-bit reads examined in decode_huffman_code (reference tree: base + inductive)" % checked)
+    # tree_lookup: the fast path has >= 15 bits by its caller's contract; its walk starts at FAST_LOOKUP_BITS
